@@ -59,6 +59,19 @@ def judge_tree(chk, case, toks, fault):
             chk.violation("schema:element-type", "element %d type/tlen %s/%s want %d/%d" % (i, p[2], p[4], want["type"], want["tlen"]), base)
         if i > 0 and int(p[3]) != want["rep"]:
             chk.violation("schema:element-repetition", "element %d repetition %s want %d" % (i, p[3], want["rep"]), base)
+        if len(p) > 7 and i > 0:
+            wl = want.get("lt", {"k": "none"})
+            unit = {"ms": 0, "us": 1, "ns": 2}
+            exp = {"none": "x", "string": "1/0/0", "map": "2/0/0", "list": "3/0/0", "enum": "4/0/0", "date": "6/0/0", "null": "10/0/0",
+                   "json": "11/0/0", "bson": "12/0/0", "uuid": "13/0/0", "float16": "14/0/0"}.get(wl["k"])
+            if wl["k"] == "decimal":
+                exp = "5/%d/%d" % (wl["scale"], wl["precision"])
+            elif wl["k"] == "integer":
+                exp = "9/%d/%d" % (wl["bits"], int(wl["signed"]))
+            elif wl["k"] in ("time", "timestamp"):
+                exp = "%d/%d/%d" % (7 if wl["k"] == "time" else 8, unit[wl["unit"]], int(wl["utc"]))
+            if p[7] != exp:
+                chk.violation("schema:logical-type:" + wl["k"], "element %d logical type accessor gives %s, the file states %s (%s)" % (i, p[7], exp, wl), base)
         if i > 0 and want["isLeaf"] and (int(p[5]), int(p[6])) != (lvl[i]["maxDef"], lvl[i]["maxRep"]):
             chk.violation("schema:node-level-accessor:" + shape, "carquet_schema_node_max_def/rep_level of leaf element %d = (%s,%s), path definition says (%d,%d)" % (
                 i, p[5], p[6], lvl[i]["maxDef"], lvl[i]["maxRep"]), base)
